@@ -318,6 +318,50 @@ def c10_quant_part(ctx):
     ctx.cov["quantifier_distribution"] = qdist(meta + m2)
 
 
+@monitor("c13_quant")
+def mon_c13_quant(sc, obs):
+    """quantifier calls: the reported amount is zero exactly when nothing the call may write changed -- upward: the
+    quantifier's own table; downward into a formula or predicate: that operand's table"""
+    if whole_error(obs):
+        return None
+    kb, qobjs = sc[1], sc[5]
+    nb = len(kb)
+    dirty = set()
+    for n, op, amt, before, after in walk(sc, obs):
+        if after is None:
+            return None
+        if op[0] == 21 and qobjs[op[1]][1] >= nb:
+            dirty.add(qobjs[op[1]][1] - nb)      # wrote into the inner quantifier's private neurons: not visible in any table
+            continue
+        if op[0] == 20:
+            qi = op[1]
+            was_dirty = qi in dirty
+            dirty.discard(qi)
+            if was_dirty:
+                continue
+            changed = before[1][qi] != after[1][qi]
+            # rows that appear with the world default are not a change of any reading
+            w = sx.bnd(qobjs[qi][4])
+            changed = any(after[1][qi].get(g) != before[1][qi].get(g, w) for g in set(after[1][qi]) | set(before[1][qi]))
+            if (amt == 0) == changed:
+                return (f"op #{n} upward of quantifier {qi}: reported amount is zero iff its table did not change (changed={changed})", f"amount {amt}", None)
+        if op[0] == 21:
+            qi = op[1]
+            opd = qobjs[qi][1]
+            if qi in dirty:
+                continue
+            changed = before[0][opd] != after[0][opd]
+            if (amt == 0) == changed:
+                return (f"op #{n} downward of quantifier {qi} into object {opd}: reported amount is zero iff that table did not change (changed={changed})", f"amount {amt}", None)
+    return None
+
+
+def c13_quant_part(ctx):
+    scs, meta = gen_quant.gen_k50(ctx.rng("c13q"), 400 if ctx.quick else 4000, downward=True, nested=0.2)
+    run_q(ctx, "K7 quantifier calls: reported amounts (instance sets growing between calls)", scs, ["c13_quant"], hashseeds=(0,))
+    ctx.cov["quantifier_distribution"] = qdist(meta)
+
+
 def c05_quant_part(ctx):
     scs, meta = gen_quant.gen_k50(ctx.rng("c05q"), 300 if ctx.quick else 4000, downward=True, nested=0.3)
     s2, m2 = gen_quant.gen_k50_interleaved(ctx.rng("c05qi"), 60 if ctx.quick else 800)
